@@ -41,9 +41,9 @@ RULE = ("formulas: hand-built degenerate ones (empty formula, empty clause / con
         "equalities, negative literals, every input operator), random ones, real cnfgen / pbgen command lines; "
         "0/1/34/35/36/70/71 rows for the page split; with/without header and variable names, odd characters in both; "
         "StringIO and real files; distinct = distinct request line; non-trivial = at least one row")
-ASSUMPTIONS = ["the LaTeX theorems and the token-level OPB theorems speak about token rows; text -> rows is proven for the OPB writer's own output "
-               "(Props/C12/Text.lean: opb_text_roundtrip, numbers up to 4300 digits); the lexer on other texts and the LaTeX lexer "
-               "(incl. the split of a glued coefficient `2{x}`) are compared, not proven",
+ASSUMPTIONS = ["the token-level theorems speak about token rows; text -> rows is proven for the OPB writer's own output "
+               "(Props/C12/Text.lean: opb_text_roundtrip, numbers up to 4300 digits) and for the LaTeX writer's own output "
+               "(Props/C12/LatexText.lean: latex_text_lex, latex_text_rows_*; names without white space); the lexers on other texts are compared, not proven",
                "typographic meaning of the LaTeX (alignment blanks, what \\overline covers) is not part of any theorem"]
 NOTES = ["D14 (fixed 81c9102): header value / label with a line break -> non-comment line in the OPB file; corpus cls linebreak keeps exercising it",
          "D31 (fixed 47b0608): LaTeX omitted every coefficient <= 1, so a zero coefficient was shown as 1; corpus cls zerocoef keeps exercising it",
